@@ -20,6 +20,7 @@ VALID = z3.Function("valid_u32", z3.IntSort(), z3.BoolSort())
 ENVSET = z3.Function("env_set", z3.IntSort(), z3.BoolSort())
 ENVVAL = z3.Function("env_val", z3.IntSort(), z3.IntSort())
 U32OF = z3.Function("u32_of", z3.IntSort(), z3.BitVecSort(32))  # numeric value of a valid text
+NONUTF8 = z3.Function("non_utf8", z3.IntSort(), z3.BoolSort())  # the text is not valid UTF-8 (consulted by env::var only)
 
 
 def is_u32_text(s):
@@ -113,6 +114,24 @@ def m_var_os(ex, c, args):
     if ex.branch(ENVSET(t), "env"):
         return SOME(SymStr(ENVVAL(t)))
     return NONE
+
+
+@tmodel("env::var", "var")
+def m_var(ex, c, args):
+    """std::env::var: the variable as var_os sees it, refused (VarError::NotUnicode) when the text is not UTF-8;
+    a text that is not UTF-8 converts to nothing but OsString"""
+    name = rda(args[0])
+    t = ex.str_term(name)
+    declared = getattr(ex, "declared_env", None)
+    if declared is not None and isinstance(name, str) and name not in declared:
+        ex.notes.append(("undeclared-env", name))
+    if ex.branch(ENVSET(t), "env"):
+        if ex.branch(NONUTF8(ENVVAL(t)), "env-utf8"):
+            if getattr(ex, "conv", "u32") != "string":
+                ex.assume(z3.Not(VALID(ENVVAL(t))))
+            return ERR(Opaque("VarError::NotUnicode", (SymStr(ENVVAL(t)),)))
+        return OK(SymStr(ENVVAL(t)))
+    return ERR(Opaque("VarError::NotPresent", ()))
 
 
 @tmodel("Doc::to_completion")
@@ -449,6 +468,8 @@ class Concretizer:
                     s = "0" + s
             else:
                 s = "x%dq" % self.n
+                if z3.is_true(self.m.eval(NONUTF8(z3.IntVal(i)), model_completion=False)):
+                    s += "\udcff"  # byte 0xff through surrogateescape: not UTF-8
             self.used.add(s)
             self.fresh[i] = s
         return s
